@@ -89,6 +89,16 @@ func C12(tier common.Tier) int {
 				alpha := e1.Alphabet(fam, inU, []int{0})
 				for _, mix := range []e1.Mix{{Imm: true, Ctor: 1, Mut: true}, {Imm: true, Ctor: 2, PreludeLast: true}} {
 					e1.Histories(alpha, depth, -1, func(_ int, h []e1.Block) {
+						if len(h) == 3 {
+							// depth 3 over six encloser kinds (the full alphabet at depth 3 x 193 transformations is ~10^7 runs)
+							for _, b := range h {
+								switch b.Encl {
+								case e1.EPlain, e1.ECtorNewT, e1.EMethTPtr, e1.EPkgVarClosure, e1.EPkgVarDirect, e1.EInit:
+								default:
+									return
+								}
+							}
+						}
 						idx++
 						if !sh.Mine(idx) {
 							return
